@@ -1,11 +1,331 @@
-/- Hand-written executable model (tie B): Spectral.  Core Lean only — no Mathlib import in this file. -/
+/- Hand-written executable model (tie B): Spectral — the spectral side of `gstools/covmodel`:
+   `rad_fac`, `spectral_rad_pdf` (tools.py), `CovModel.spectrum / ln_spectral_rad_pdf / has_cdf / has_ppf /
+   dist_func` (base.py) and the analytic overrides of `Gaussian`, `Exponential` (density, radial cdf, radial
+   ppf), `Matern` (both branches) and `JBessel` (models.py).
+   Core Lean only — no Mathlib import in this file.
+
+   Every formula is written expression by expression as in the code (same operation order, so the `Float`
+   run differs from numpy only by libm rounding).  Functions that are not in `Transc` (`erf`, `erfinv`,
+   `gamma`, `loggamma`) are *parameters* (`Special α`): the driver supplies series implementations on `Float`
+   (bottom of this file), `GSV/Lemmas/Spectral.lean` supplies the real ones (`erf x = 2/√π ∫₀ˣ e^{-t²}`).
+   `sps.gamma` at the half-integers the code uses (`Γ((d+1)/2)`, `Γ(d/2+1)`) is the recursion `gammaHalf`.
+   Where the code offers nothing (`return None`) the model returns `PpfOut.notOffered` / `none`. -/
 import GSV.Proto
 open Lean GSV GSV.Proto GSV.Transc
 namespace GSV.Model.Spectral
 
+variable {α : Type} [Arith α] [Transc α] [DecidableLT α] [DecidableLE α]
+
+/-- special functions outside `Transc`, supplied by the carrier -/
+structure Special (α : Type) where
+  erf : α → α
+  erfinv : α → α
+  gamma : α → α
+  lgamma : α → α
+
+/-- `Γ(n/2)` for `n ≥ 1` by `Γ(1/2)=√π`, `Γ(1)=1`, `Γ(x+1)=xΓ(x)` (`gammaHalf 0` is a dummy `0`) -/
+def gammaHalf : Nat → α
+  | 0 => ((0:Nat):α)
+  | 1 => sqrt Transc.pi
+  | 2 => ((1:Nat):α)
+  | n + 2 => ((n:Nat):α) / ((2:Nat):α) * gammaHalf n
+
+/-- `model.len_rescaled = len_scale / rescale` -/
+def lenRescaled (len rescale : α) : α := len / rescale
+
+/-- `tools.rad_fac(dim, r)` -/
+def radFac (d : Nat) (r : α) : α :=
+  match d with
+  | 1 => ((2:Nat):α)
+  | 2 => ((2:Nat):α) * Transc.pi * r
+  | 3 => ((4:Nat):α) * Transc.pi * npow r 2
+  | _ => ((d:Nat):α) * npow r (d - 1) * npow (sqrt Transc.pi) d / gammaHalf (d + 2)
+
+/-- `np.isclose(r, 0)` with default tolerances: `|r| <= 1e-8` -/
+def isclose0 (r : α) : Bool := decide (fabs r ≤ (1e-8:α))
+
+/-- the two repair lines at the end of `spectral_rad_pdf`: non-finite → 0, then `np.maximum(res, 0)` -/
+def finish (res : α) : α :=
+  if isnan (res - res) then ((0:Nat):α) else if res < ((0:Nat):α) then ((0:Nat):α) else res
+
+/-- `tools.spectral_rad_pdf(model, r)` for a model of dimension `d` with spectral density `dens` -/
+def radPdf (d : Nat) (dens : α → α) (r : α) : α :=
+  let r := fabs r
+  if d > 1 then
+    (if isclose0 r then ((0:Nat):α) else finish (radFac d r * fabs (dens r)))
+  else finish (radFac d r * fabs (dens r))
+
+/-- `CovModel.ln_spectral_rad_pdf` -/
+def lnRadPdf (d : Nat) (dens : α → α) (r : α) : α := log (radPdf d dens r)
+
+/-- `CovModel.spectrum(k) = spectral_density(k) * var` -/
+def spectrum (var : α) (dens : α → α) (k : α) : α := dens k * var
+
+/-- `CovModel.correlation(r) = cor(r / len_rescaled)` -/
+def correlation (cor : α → α) (ℓ r : α) : α := cor (r / ℓ)
+
+/-! ### Gaussian -/
+
+def gauCor (h : α) : α := exp (-(npow h 2))
+
+/-- `Gaussian.spectral_density` (`ℓ = len_rescaled`) -/
+def gauDensity (d : Nat) (ℓ k : α) : α :=
+  npow (ℓ / ((2:Nat):α) / sqrt Transc.pi) d * exp (-(npow (k * ℓ / ((2:Nat):α)) 2))
+
+/-- `Gaussian.spectral_rad_cdf`; `none` = `return None` -/
+def gauCdf (sp : Special α) (d : Nat) (ℓ r : α) : Option α :=
+  match d with
+  | 1 => some (sp.erf (r * ℓ / ((2:Nat):α)))
+  | 2 => some (((1:Nat):α) - exp (-(npow (r * ℓ / ((2:Nat):α)) 2)))
+  | 3 => some (sp.erf (r * ℓ / ((2:Nat):α)) - r * ℓ / sqrt Transc.pi * exp (-(npow (r * ℓ / ((2:Nat):α)) 2)))
+  | _ => none
+
+/-- `Gaussian.spectral_rad_ppf` -/
+def gauPpf (sp : Special α) (d : Nat) (ℓ u : α) : Option α :=
+  match d with
+  | 1 => some (((2:Nat):α) / ℓ * sp.erfinv u)
+  | 2 => some (((2:Nat):α) / ℓ * sqrt (-(log (((1:Nat):α) - u))))
+  | _ => none
+
+/-! ### Exponential -/
+
+def expCor (h : α) : α := exp (-h)
+
+/-- `np.arctan` through the scalar interface -/
+def atan (x : α) : α := atan2 x ((1:Nat):α)
+
+/-- `Exponential.spectral_density` -/
+def expDensity (d : Nat) (ℓ k : α) : α :=
+  npow ℓ d * gammaHalf (d + 1)
+    / rpow (Transc.pi * (((1:Nat):α) + npow (k * ℓ) 2)) (((d + 1 : Nat):α) / ((2:Nat):α))
+
+/-- `Exponential.spectral_rad_cdf` -/
+def expCdf (d : Nat) (ℓ r : α) : Option α :=
+  match d with
+  | 1 => some (atan (r * ℓ) * ((2:Nat):α) / Transc.pi)
+  | 2 => some (((1:Nat):α) - ((1:Nat):α) / sqrt (((1:Nat):α) + npow (r * ℓ) 2))
+  | 3 => some ((atan (r * ℓ) - r * ℓ / (((1:Nat):α) + npow (r * ℓ) 2)) * ((2:Nat):α) / Transc.pi)
+  | _ => none
+
+/-- result of a ppf: the code returns `None`, `inf`, or a number -/
+inductive PpfOut (α : Type) where
+  | notOffered
+  | infinite
+  | value (x : α)
+
+/-- `Exponential.spectral_rad_ppf` (`np.divide(1, u**2, out=inf, where=not isclose(u, 0))`) -/
+def expPpf (d : Nat) (ℓ u : α) : PpfOut α :=
+  match d with
+  | 1 => .value (sin (Transc.pi / ((2:Nat):α) * u) / cos (Transc.pi / ((2:Nat):α) * u) / ℓ)
+  | 2 => if isclose0 u then .infinite
+         else .value (sqrt (((1:Nat):α) / npow u 2 - ((1:Nat):α)) / ℓ)
+  | _ => .notOffered
+
+/-! ### Matern, JBessel -/
+
+/-- `Matern.cor` for `nu > 20` (the Gaussian limit the code switches to) -/
+def maternBigCor (h : α) : α := exp (-(npow (h / ((2:Nat):α)) 2))
+
+/-- `Matern.spectral_density` -/
+def maternDensity (sp : Special α) (d : Nat) (ℓ ν k : α) : α :=
+  let x := npow (k * ℓ) 2
+  if ν > ((20:Nat):α) then
+    npow (ℓ / sqrt Transc.pi) d * exp (-x) * (((1:Nat):α) + (0.5:α) * npow x 2 / ν)
+      * rpow (sqrt (((1:Nat):α) + x / ν)) (-((d:Nat):α))
+  else
+    npow (ℓ / sqrt Transc.pi) d * exp (
+      -(ν + ((d:Nat):α) / ((2:Nat):α)) * log (((1:Nat):α) + x / ν)
+      + sp.lgamma (ν + ((d:Nat):α) / ((2:Nat):α))
+      - sp.lgamma ν
+      - ((d:Nat):α) * log (sqrt ν))
+
+/-- what the transform of `maternBigCor` really is: the Gaussian density with doubled length -/
+def maternBigExact (d : Nat) (ℓ k : α) : α := gauDensity d (((2:Nat):α) * ℓ) k
+
+/-- `JBessel.spectral_density` (the divisor is `np.minimum(gamma(nu - d/2 + 1), 100)`) -/
+def jbesselDensity (sp : Special α) (d : Nat) (ℓ ν k : α) : α :=
+  if k < ((1:Nat):α) / ℓ then
+    let g := sp.gamma (ν - ((d:Nat):α) / ((2:Nat):α) + ((1:Nat):α))
+    npow (ℓ / sqrt Transc.pi) d * sp.gamma (ν + ((1:Nat):α))
+      / (if ((100:Nat):α) < g then ((100:Nat):α) else g)
+      * rpow (((1:Nat):α) - npow (k * ℓ) 2) (ν - ((d:Nat):α) / ((2:Nat):α))
+  else ((0:Nat):α)
+
+/-! ### which classes offer what -/
+
+/-- the 17 shipped model classes -/
+def classes : List String :=
+  ["Gaussian", "Exponential", "Matern", "Integral", "Stable", "Rational", "Cubic", "Linear", "Circular",
+   "Spherical", "HyperSpherical", "SuperSpherical", "JBessel", "TPLGaussian", "TPLExponential", "TPLStable",
+   "TPLSimple"]
+
+/-- `model.has_cdf` -/
+def hasCdf (cls : String) (d : Nat) : Bool :=
+  (cls == "Gaussian" || cls == "Exponential") && (d == 1 || d == 2 || d == 3)
+
+/-- `model.has_ppf` -/
+def hasPpf (cls : String) (d : Nat) : Bool :=
+  (cls == "Gaussian" || cls == "Exponential") && (d == 1 || d == 2)
+
+/-- the class overrides `spectral_density` (otherwise: numerical Hankel default) -/
+def analyticDensity (cls : String) : Bool :=
+  ["Gaussian", "Exponential", "Matern", "Integral", "HyperSpherical", "JBessel", "TPLGaussian",
+   "TPLExponential"].contains cls
+
+/-- shape of `model.dist_func`: (pdf, cdf-or-None, ppf-or-None) -/
+def distFuncShape (cls : String) (d : Nat) : Bool × Bool × Bool := (true, hasCdf cls d, hasPpf cls d)
+
+/-! ### `Float` special functions (driver side only) -/
+
+namespace F
+
+/-- `erf` for `|x| ≤ 3`: `2/√π · e^{-x²} Σ 2ⁿ x^{2n+1}/(2n+1)!!` (positive terms) -/
+def erfSeries (x : Float) : Float := Id.run do
+  let x2 := x * x
+  let mut term := x
+  let mut s := x
+  for n in [1:200] do
+    term := term * 2.0 * x2 / (2.0 * n.toFloat + 1.0)
+    s := s + term
+  return 2.0 / Float.sqrt 3.141592653589793 * Float.exp (-x2) * s
+
+/-- `erfc` for `x > 3` by the continued fraction `e^{-x²}/√π · 1/(x+ (1/2)/(x+ 1/(x+ (3/2)/(x+ …))))` -/
+def erfcCF (x : Float) : Float := Id.run do
+  let mut f := x
+  for i in [0:120] do
+    let k := (120 - i).toFloat
+    f := x + (k / 2.0) / f
+  return Float.exp (-(x * x)) / Float.sqrt 3.141592653589793 / f
+
+def erf (x : Float) : Float :=
+  if x.isNaN then x
+  else if x < 0.0 then -(if -x ≤ 3.0 then erfSeries (-x) else 1.0 - erfcCF (-x))
+  else if x ≤ 3.0 then erfSeries x else 1.0 - erfcCF x
+
+/-- `log Γ(x)` for `x > 0`: shift to `x ≥ 16`, then Stirling's series -/
+def lgamma (x : Float) : Float := Id.run do
+  if x.isNaN then return x
+  if x ≤ 0.0 then return (1.0 / 0.0)
+  let mut y := x
+  let mut p := 1.0
+  let mut shift := 0.0
+  for _ in [0:16] do
+    if y < 16.0 then
+      p := p * y
+      if p > 1e250 then
+        shift := shift + Float.log p
+        p := 1.0
+      y := y + 1.0
+  let z := 1.0 / (y * y)
+  let ser := (1.0 / 12.0 - z * (1.0 / 360.0 - z * (1.0 / 1260.0 - z * (1.0 / 1680.0 - z * (1.0 / 1188.0
+    - z * (691.0 / 360360.0 - z * (1.0 / 156.0))))))) / y
+  return (y - 0.5) * Float.log y - y + 0.9189385332046727 + ser - (Float.log p + shift)
+
+/-- `Γ(x)` for `x ≥ 0` (`Γ(0) = +inf` as in scipy) -/
+def gamma (x : Float) : Float := if x == 0.0 then 1.0 / 0.0 else Float.exp (lgamma x)
+
+/-- `erfinv` on `(-1, 1)`: Winitzki start + Newton/Halley steps on `erf` -/
+def erfinv (u : Float) : Float := Id.run do
+  if u.isNaN then return u
+  if u ≥ 1.0 then return (if u == 1.0 then 1.0 / 0.0 else 0.0 / 0.0)
+  if u ≤ -1.0 then return (if u == -1.0 then -(1.0 / 0.0) else 0.0 / 0.0)
+  let a := 0.147
+  let l := Float.log (1.0 - u * u)
+  let t := 2.0 / (3.141592653589793 * a) + l / 2.0
+  let mut x := Float.sqrt (Float.sqrt (t * t - l / a) - t)
+  if u < 0.0 then x := -x
+  for _ in [0:6] do
+    let e := erf x - u
+    let d := 2.0 / Float.sqrt 3.141592653589793 * Float.exp (-(x * x))
+    let s := e / d
+    x := x - s / (1.0 + x * s)
+  return x
+
+def special : Special Float := ⟨erf, erfinv, gamma, lgamma⟩
+
+end F
+
+/-! ### driver -/
+
+private def optF : Option Float → Float
+  | some x => x
+  | none => 0.0 / 0.0
+
+private def ppfJ : PpfOut Float → Json
+  | .notOffered => Json.null
+  | .infinite => fbits (1.0 / 0.0)
+  | .value x => fbits x
+
+/-- density of one of the modelled classes; `none` = class not modelled -/
+def densityOf (cls : String) (d : Nat) (ℓ ν : Float) : Option (Float → Float) :=
+  match cls with
+  | "Gaussian" => some (gauDensity d ℓ)
+  | "Exponential" => some (expDensity d ℓ)
+  | "Matern" => some (maternDensity F.special d ℓ ν)
+  | "JBessel" => some (jbesselDensity F.special d ℓ ν)
+  | _ => none
+
 /-- line-protocol operations of this model; `none` = not one of mine -/
 def ops (op : String) (j : Json) : Option (Except String Json) :=
   match op with
+  | "spec_radfac" => some (do
+      let d ← getNat j "dim"
+      let rs ← getFloats j "r"
+      return fl (rs.toList.map (radFac d)))
+  | "spec_eval" => some (do
+      let cls ← getStr j "cls"
+      let d ← getNat j "dim"
+      let len ← getFloat j "len"
+      let resc ← getFloat j "rescale"
+      let var ← getFloat j "var"
+      let ν ← getFloat j "nu"
+      let xs ← getFloats j "x"
+      let what ← getStr j "what"
+      let ℓ := lenRescaled len resc
+      match densityOf cls d ℓ ν with
+      | none => throw s!"spec_eval: class {cls} not modelled"
+      | some dens =>
+        match what with
+        | "density" => return fl (xs.toList.map dens)
+        | "spectrum" => return fl (xs.toList.map (spectrum var dens))
+        | "rad_pdf" => return fl (xs.toList.map (radPdf d dens))
+        | "ln_rad_pdf" => return fl (xs.toList.map (lnRadPdf d dens))
+        | "cdf" =>
+          match cls with
+          | "Gaussian" =>
+            if (gauCdf F.special d ℓ 0.0).isNone then return Json.null
+            else return fl (xs.toList.map fun r => optF (gauCdf F.special d ℓ r))
+          | "Exponential" =>
+            if (expCdf d ℓ (0.0:Float)).isNone then return Json.null
+            else return fl (xs.toList.map fun r => optF (expCdf d ℓ r))
+          | _ => return Json.null
+        | "ppf" =>
+          match cls with
+          | "Gaussian" =>
+            if (gauPpf F.special d ℓ 0.5).isNone then return Json.null
+            else return fl (xs.toList.map fun u => optF (gauPpf F.special d ℓ u))
+          | "Exponential" =>
+            match expPpf d ℓ (0.5:Float) with
+            | .notOffered => return Json.null
+            | _ => return Json.arr (xs.toList.map fun u => ppfJ (expPpf d ℓ u)).toArray
+          | _ => return Json.null
+        | _ => throw s!"spec_eval: unknown what {what}")
+  | "spec_tables" => some (do
+      let cls ← getStr j "cls"
+      let d ← getNat j "dim"
+      let (a, b, c) := distFuncShape cls d
+      return Json.arr #[Json.bool (hasCdf cls d), Json.bool (hasPpf cls d), Json.bool (analyticDensity cls),
+                        Json.bool a, Json.bool b, Json.bool c, Json.bool (classes.contains cls)])
+  | "spec_special" => some (do
+      let f ← getStr j "f"
+      let xs ← getFloats j "x"
+      match f with
+      | "erf" => return fl (xs.toList.map F.erf)
+      | "erfinv" => return fl (xs.toList.map F.erfinv)
+      | "gamma" => return fl (xs.toList.map F.gamma)
+      | "lgamma" => return fl (xs.toList.map F.lgamma)
+      | "gammaHalf" => return fl (xs.toList.map fun x => (gammaHalf x.toUInt64.toNat : Float))
+      | _ => throw s!"spec_special: unknown {f}")
   | _ => none
 
 end GSV.Model.Spectral
